@@ -54,7 +54,18 @@ pub fn gen_number(rng: &mut Rng, floats: bool) -> String {
             }
             s
         }
-        5 | 6 => format!("{}", rng.next() as i64 >> rng.below(64)),
+        5 => format!("{}", rng.next() as i64 >> rng.below(64)),
+        6 => {
+            if floats && rng.chance(1, 2) {
+                loop {
+                    let (s, valid) = long_number(rng);
+                    if valid {
+                        return s;
+                    }
+                }
+            }
+            format!("{}", rng.next() as i64 >> rng.below(64))
+        }
         7 => format!("{}", rng.next() >> rng.below(64)),
         _ => {
             if !floats {
@@ -422,7 +433,110 @@ const MUT_POOL: &[u8] = b"[]{},:\"\\u0123456789.eE+-tfn \n\x00\x01\x1f\x7f\x80\x
 pub fn mutate(doc: &[u8], rng: &mut Rng) -> (Vec<u8>, &'static str) {
     let mut d = doc.to_vec();
     let n = d.len();
-    match rng.below(11) {
+    match rng.below(19) {
+        11 | 12 => {
+            // separator-level damage: trailing / leading / missing / swapped separators
+            let opens: Vec<usize> = d.iter().enumerate().filter(|(_, c)| b"[{".contains(c)).map(|(i, _)| i).collect();
+            let closes: Vec<usize> = d.iter().enumerate().filter(|(_, c)| b"]}".contains(c)).map(|(i, _)| i).collect();
+            let seps: Vec<usize> = d.iter().enumerate().filter(|(_, c)| b",:".contains(c)).map(|(i, _)| i).collect();
+            match rng.below(5) {
+                0 if !closes.is_empty() => {
+                    let i = closes[rng.below(closes.len())];
+                    d.insert(i, b',');
+                    if rng.chance(1, 3) {
+                        d.insert(i + 1, b' ');
+                    }
+                    (d, "trailingcomma")
+                }
+                1 if !opens.is_empty() => {
+                    let i = opens[rng.below(opens.len())];
+                    d.insert(i + 1, b',');
+                    (d, "leadingcomma")
+                }
+                2 if !seps.is_empty() => {
+                    let i = seps[rng.below(seps.len())];
+                    d.remove(i);
+                    (d, "missingsep")
+                }
+                3 if !seps.is_empty() => {
+                    let i = seps[rng.below(seps.len())];
+                    d[i] = if d[i] == b',' { b':' } else { b',' };
+                    (d, "swappedsep")
+                }
+                _ => {
+                    if !closes.is_empty() {
+                        let i = closes[rng.below(closes.len())];
+                        d[i] = if d[i] == b']' { b'}' } else { b']' };
+                    }
+                    (d, "wrongclose")
+                }
+            }
+        }
+        13 | 14 => {
+            // damage the tail of a number token
+            let mut ends: Vec<usize> = Vec::new();
+            for i in 0..n {
+                if d[i].is_ascii_digit() && (i + 1 == n || !(d[i + 1].is_ascii_digit() || b".eE+-".contains(&d[i + 1]))) {
+                    ends.push(i + 1);
+                }
+            }
+            if !ends.is_empty() {
+                let i = ends[rng.below(ends.len())];
+                let tails: &[&[u8]] = &[b".", b"e", b"E", b"-", b".5.5", b"e+", b"E-", b".e1", b"e1.5", b"0", b"x", b".5e", b"e5e5", b"+1"];
+                let t: &[u8] = tails[rng.below(tails.len())];
+                for (k, b) in t.iter().enumerate() {
+                    d.insert(i + k, *b);
+                }
+            }
+            (d, "numbertail")
+        }
+        15 | 16 => {
+            // a control character inside a string
+            let mut inside: Vec<usize> = Vec::new();
+            let mut instr = false;
+            let mut esc = false;
+            for (i, c) in d.iter().enumerate() {
+                if instr {
+                    if esc {
+                        esc = false;
+                    } else if *c == b'\\' {
+                        esc = true;
+                    } else if *c == b'"' {
+                        instr = false;
+                    } else {
+                        inside.push(i);
+                    }
+                } else if *c == b'"' {
+                    instr = true;
+                }
+            }
+            if !inside.is_empty() {
+                let i = inside[rng.below(inside.len())];
+                d[i] = *rng.pick(&[0x1fu8, 0x1f, 0x00, 0x0a, 0x09, 0x0d, 0x1e, 0x01, 0x10, 0x08]);
+            }
+            (d, "controlinstring")
+        }
+        17 | 18 => {
+            // replace a number by a long one whose '.', 'e' fall at chosen places of the 32-byte blocks
+            let (num, _) = long_number(rng);
+            let mut starts: Vec<usize> = Vec::new();
+            for i in 0..n {
+                if (d[i].is_ascii_digit() || d[i] == b'-') && (i == 0 || b"[,: \n\t\r".contains(&d[i - 1])) {
+                    starts.push(i);
+                }
+            }
+            if !starts.is_empty() {
+                let i = starts[rng.below(starts.len())];
+                let mut j = i;
+                while j < d.len() && (d[j].is_ascii_digit() || b".eE+-".contains(&d[j])) {
+                    j += 1;
+                }
+                d.splice(i..j, num.into_bytes());
+            } else {
+                d = format!("[{num} ,1]").into_bytes();
+            }
+            (d, "longnumber")
+        }
         0 | 1 => {
             // truncation
             let k = rng.below(n + 1);
@@ -506,4 +620,54 @@ pub fn add_newlines(doc: &mut Vec<u8>, rng: &mut Rng) {
             *b = b'\n';
         }
     }
+}
+
+/// a long number literal: (text, grammatically valid?) with '.', exponent and possible damage
+/// (second fraction, missing digits) at positions that vary relative to 32-byte blocks
+pub fn long_number(rng: &mut Rng) -> (String, bool) {
+    let mut s = String::new();
+    let mut valid = true;
+    if rng.chance(1, 4) {
+        s.push('-');
+    }
+    let n1 = rng.range(1, 45);
+    for i in 0..n1 {
+        let dgt = if i == 0 { b'1' + rng.below(9) as u8 } else { b'0' + rng.below(10) as u8 };
+        s.push(dgt as char);
+    }
+    if rng.chance(3, 4) {
+        s.push('.');
+        let n2 = rng.below(45);
+        if n2 == 0 {
+            valid = false;
+        }
+        for _ in 0..n2 {
+            s.push((b'0' + rng.below(10) as u8) as char);
+        }
+        if rng.chance(1, 6) {
+            s.push('.');
+            s.push((b'0' + rng.below(10) as u8) as char);
+            valid = false;
+        }
+    }
+    if rng.chance(1, 2) {
+        s.push(*rng.pick(&['e', 'E']));
+        match rng.below(3) {
+            0 => s.push('-'),
+            1 => s.push('+'),
+            _ => {}
+        }
+        let n3 = if rng.chance(1, 8) { 0 } else { rng.range(1, 2) };
+        if n3 == 0 {
+            valid = false;
+        }
+        for _ in 0..n3 {
+            s.push((b'0' + rng.below(10) as u8) as char);
+        }
+        if rng.chance(1, 8) {
+            s.push_str(*rng.pick(&[".5", "e1", "E"]));
+            valid = false;
+        }
+    }
+    (s, valid)
 }
